@@ -145,6 +145,13 @@ func SignJWT(ctx context.Context, key crypto.Signer, alg jwa.SignatureAlgorithm,
 	if err != nil {
 		return "", fmt.Errorf("invalid JWT headers: %w", err)
 	}
+	if hdr.JWK() != nil {
+		// Same guard as in SignJWS: make sure the `jwk` header (if present) does not (accidentally) contain a private key.
+		var jwkAsPrivateKey crypto.Signer
+		if err := hdr.JWK().Raw(&jwkAsPrivateKey); err == nil {
+			return "", errors.New("refusing to sign JWT with private key in JWK header")
+		}
+	}
 
 	sig, err = jwt.Sign(t, jwt.WithKey(jwa.SignatureAlgorithm(alg.String()), key, jws.WithProtectedHeaders(hdr)))
 	token = string(sig)
